@@ -5,6 +5,8 @@ pub mod c02;
 pub mod c03;
 pub mod c05;
 pub mod c06;
+pub mod c07;
+pub mod c08;
 pub mod c12;
 
 pub fn run(ctx: &mut Ctx) {
@@ -16,6 +18,8 @@ pub fn run(ctx: &mut Ctx) {
         "C03" => c03::run_check(ctx),
         "C05" => c05::run_check(ctx),
         "C06" => c06::run_check(ctx),
+        "C07" => c07::run_check(ctx),
+        "C08" => c08::run_check(ctx),
         "C12" => c12::run_check12(ctx),
         "C13" => c12::run_check13(ctx),
         other => {
@@ -32,6 +36,8 @@ pub fn replay(ctx: &mut Ctx, case: &serde_json::Value) {
         "C03" => c03::replay(ctx, case),
         "C05" => c05::replay(ctx, case),
         "C06" => c06::replay(ctx, case),
+        "C07" => c07::replay(ctx, case),
+        "C08" => c08::replay(ctx, case),
         "C12" | "C13" => c12::replay(ctx, case),
         other => {
             eprintln!("unknown property {}", other);
